@@ -533,6 +533,9 @@ def run_gen_prop(chk, prop, profiles=("dev",), trusted=(), assume=(), rule=""):
         nprog = len(r["progs"])
         for i, c in enumerate(r["cases"]):
             outs, tables = r["impl"][i]
+            prg = pmap[c["p"]]
+            if prg.only and prg.only != prop:
+                continue            # dedicated stream of another property (outside this property's precondition)
             total_ops += len(c["ops"])
             for j, op in enumerate(c["ops"]):
                 if op["op"] in RELEVANT[prop]:
@@ -542,7 +545,7 @@ def run_gen_prop(chk, prop, profiles=("dev",), trusted=(), assume=(), rule=""):
                 if j < len(c["ops"]) and in_channel(prop, pmap[c["p"]], c["ops"][j], outs[j], mv):
                     mism_in.append((prof, i, j, mv))
             for j, why in pred(pmap[c["p"]], c, outs, tables):
-                found.append((prof, i, j, why))
+                found.append((prof, i, j, why, prg.cls if (prg.only == prop and _by_name(c["ops"][j].get("keys"))) else "none"))
         if not samples and r["cases"]:
             c = r["cases"][0]
             for j, op in enumerate(c["ops"]):
@@ -569,7 +572,7 @@ def run_gen_prop(chk, prop, profiles=("dev",), trusted=(), assume=(), rule=""):
         else:
             fresh.append(f)
     if fresh:
-        prof, i, j, why = fresh[0]
+        prof, i, j, why = fresh[0][:4]
         r = D.run_all(chk.seed, chk.tier, prof)
         c = r["cases"][i]
         prog = {p.pid: p for p in r["progs"]}[c["p"]]
@@ -598,8 +601,17 @@ def _short(o, n=600):
     return o if len(s) <= n else s[:n] + "..."
 
 
+def _by_name(spec):
+    """does the key source address children by name?"""
+    if not isinstance(spec, dict):
+        return False
+    if spec.get("k") == "chain":
+        return _by_name(spec.get("a")) or _by_name(spec.get("b"))
+    return spec.get("k") in ("names", "path", "json")
+
+
 def finding_key(prop, f):
-    return "none"
+    return f[4] if len(f) > 4 else "none"
 
 
 RELEVANT = {"C05": ("rt", "de", "ser"), "C01": ("ser", "de", "ref", "mut"), "C02": ("transcode", "ser", "de", "ref", "mut", "rawtrav"),
